@@ -37,11 +37,16 @@ def craft_signed(own, backend, psid, payload, gen_time_us, signer="certificate",
     return SECURITY_CODER.encode_etsi_ts_103097_data_signed(sd)
 
 
-def build_world(now):
-    """Genuine PKI, attacker PKI and a pool of certificates to offer."""
+def build_world(now, flavour=0):
+    """Genuine PKI, attacker PKI and a pool of certificates to offer.  flavour 1: the root lists its issuing permissions
+    explicitly and the AA also holds an application permission (623) that it may NOT issue."""
     from vf import pki
     from flexstack.security.certificate import Certificate, OwnCertificate
-    G = pki.PKI(now, n_at=3, aa_psids=(36, 37, 638), at_psids=(36, 37, 638), name="good")
+    if flavour == 1:
+        G = pki.PKI(now, n_at=3, aa_psids=(36, 37, 638), at_psids=(36, 37, 638), name="good", root_groups=[((36, 37, 638), 2), ((623,), 2)], aa_app_psids=(623,), handmade_aa=True)
+    else:
+        G = pki.PKI(now, n_at=3, aa_psids=(36, 37, 638), at_psids=(36, 37, 638), name="good")
+    esc = 623 if flavour == 1 else 99
     A = pki.PKI(now, n_at=2, aa_psids="all", at_psids=(36, 37, 638, 99), name="evil")
     pool = {}
 
@@ -61,10 +66,10 @@ def build_world(now):
     pool["a_at_claims_g_aa_evil_issuer_obj"] = ("hostile", C(pki.resign(d, A.backend, A.aa.key_id), A.aa))
     # genuine AT with escalated permissions (signature no longer matches)
     d = copy.deepcopy(G.ats[1].certificate)
-    d["toBeSigned"]["appPermissions"].append({"psid": 99})
+    d["toBeSigned"]["appPermissions"].append({"psid": esc})
     pool["g_at_tampered_perms"] = ("hostile", C(d, G.aa))
     # AT for a PSID the AA may not issue, signed with the real AA key (mis-issuance the verifier must still refuse)
-    at99 = OwnCertificate.initialize_certificate(G.backend, pki.at_tbs(now, (36, 99)), None)   # self-signed shell to get a key
+    at99 = OwnCertificate.initialize_certificate(G.backend, pki.at_tbs(now, (36, esc)), None)   # self-signed shell to get a key
     d = copy.deepcopy(at99.certificate)
     d["issuer"] = ("sha256AndDigest", G.aa.as_hashedid8())
     pool["g_at_escalated_signed_by_aa"] = ("hostile", C(pki.resign(d, G.backend, G.aa.key_id), G.aa))
@@ -122,7 +127,7 @@ def run_s_case(c, W, res):
     configured_roots = {}
     now_us = int((G.now - pki.ITS_EPOCH + 5) * 1e6)
     for i, op in enumerate(c["ops"]):
-        ctx = {"part": "S", "with_aa": c["with_aa"], "ops": c["ops"][:i + 1]}
+        ctx = {"part": "S", "with_aa": c["with_aa"], "with_sign_service": c.get("with_sign_service", False), "flavour": c.get("flavour", 0), "ops": c["ops"][:i + 1]}
         res.count("S.ops")
         try:
             if op["op"] == "add_root":
@@ -348,11 +353,13 @@ def run_s(spec, res):
     rng = random.Random(spec["seed"])
     clock = VClock().install()
     try:
-        W = build_world(clock.now())
-        names = sorted(W[2])
+        Ws = [build_world(clock.now(), 0), build_world(clock.now(), 1)]
+        names = sorted(Ws[0][2])
         for k in range(spec["cases"]):
             c = gen_s(rng, names)
-            run_s_case(c, W, res)
+            c["flavour"] = k % 2
+            res.count(f"S.pki_flavour[{c['flavour']}]")
+            run_s_case(c, Ws[c["flavour"]], res)
             res.case(repr(c))
             if k == 0:
                 res.sample(c)
@@ -377,7 +384,7 @@ def replay(case, res):
     if case.get("part") == "S":
         clock = VClock().install()
         try:
-            run_s_case(case, build_world(clock.now()), res)
+            run_s_case(case, build_world(clock.now(), case.get("flavour", 0)), res)
         finally:
             clock.uninstall()
     elif case.get("part") == "V":
